@@ -116,6 +116,9 @@ fn generated_name_space() -> Vec<Src> {
         "#[size(16)]\npub type T {\n    pub _field_8: u64,\n}\n",
         "pub type T {\n    vftable {\n        pub fn v(&self);\n    },\n    pub _field_8: u32,\n    #[address(16)]\n    pub b: u32,\n}\n",
         "pub type T {\n    vftable {\n        pub fn a(&self);\n        #[index(2)]\n        pub fn _vfunc_3(&self);\n        #[index(5)]\n        pub fn b(&self);\n    },\n    pub x: *const u8,\n}\n",
+        "pub type T {\n    vftable {\n        #[index(1)]\n        pub fn _vfunc_0(&self);\n    },\n    pub x: *const u8,\n}\n",
+        "#[size(4)]\npub type T {\n    #[size(4)]\n    vftable {\n        pub fn _vfunc_3(&self);\n        pub fn _vfunc_2(&self);\n    },\n}\n",
+        "pub type T {\n    vftable {\n        pub fn a(&self);\n        pub fn b(&self);\n        #[index(4)]\n        pub fn _vfunc_3(&self);\n        #[index(7)]\n        pub fn _vfunc_6(&self);\n        pub fn _vfunc_5(&self);\n    },\n    pub x: *const u8,\n}\n",
         "pub type T {\n    pub x: u32,\n    pub y: u32,\n}\npub type _T_size_check {\n    pub x: u32,\n    pub y: u32,\n}\n",
         "pub type T {\n    pub x: u32,\n    pub y: u32,\n}\nimpl T {\n    #[address(0x10)]\n    pub fn as_ref(&self);\n    #[address(0x20)]\n    pub fn vftable(&self);\n}\n",
         "#[address(0x10)]\npub extern x: u32;\n#[address(0x20)]\npub extern get_x: u32;\n",
